@@ -305,3 +305,15 @@ pub fn history_strategy(min: usize, max: usize, universe: usize, same_pct: u32) 
 pub fn changes(sets: &[MSet]) -> usize {
     sets.windows(2).filter(|w| w[0] != w[1]).count()
 }
+
+//------------------------------------------------------------------------------------------
+// Process-wide initialisation needed before an `Engine` is used
+
+/// `Process::init()` once per process (installs routinator's logger), then silences logging.
+pub fn init_process() {
+    static ONCE: std::sync::Once = std::sync::Once::new();
+    ONCE.call_once(|| {
+        routinator::process::Process::init().expect("process init");
+        log::set_max_level(log::LevelFilter::Off);
+    });
+}
